@@ -374,6 +374,12 @@ def check_linearity(case, ctx):
     if name == "linear":
         tol = 1e-10 * mag
     compare(ctx, "%s: fit(a*d1 + b*d2) vs a*fit(d1) + b*fit(d2) with a=%r b=%r" % (name, a, b), comb, pc, tol)
+    if ncomp(case) == 2:
+        # superposition by components: a field with one component exactly zero everywhere (purely zonal / meridional motion) is data like any other
+        zero = np.zeros_like(d1[0])
+        pe_ = fit_predict(case, ea, na, [d1[0], zero], qe, qn)
+        pn_ = fit_predict(case, ea, na, [zero, d1[1]], qe, qn)
+        compare(ctx, "%s: fit((east, north)) vs fit((east, 0)) + fit((0, north))" % name, tuple(np.asarray(x) + np.asarray(y) for x, y in zip(pe_, pn_)), p1, tol)
     ctx.label(name)
     ctx.nt(len(e) >= 4)
 
